@@ -306,7 +306,12 @@ def pretty_counter(counter, ctx):
 @register_pretty('enum.Enum')
 def pretty_enum(value, ctx):
     cls = type(value)
-    return classattr(cls, value.name)
+    name = value.name
+    if name is None or '|' in name:
+        # A combination of Flag members (or the zero value) is not
+        # an attribute of the class: print the call by value instead.
+        return pretty_call_alt(ctx, cls, args=(value.value, ))
+    return classattr(cls, name)
 
 
 @register_pretty('builtins.mappingproxy')
